@@ -853,6 +853,9 @@ class Interp:
             if isinstance(v, SV):
                 return SV(z3.Not(as_bool_term(v)), BOOL)
             return not self.truth(v)
+        if isinstance(e.op, ast.USub) and hasattr(v, "__sym_binop__") and hasattr(v, "total_seconds"):
+            from .symtime import neg_delta
+            return neg_delta(v)
         if isinstance(v, SV):
             if isinstance(e.op, ast.USub):
                 if v.ty == BOOL:
@@ -893,6 +896,12 @@ class Interp:
             return a.__sym_binop__(self, _OPSYM[type(op)], b, False)
         if hasattr(b, "__sym_binop__"):
             return b.__sym_binop__(self, _OPSYM[type(op)], a, True)
+        import datetime as _dt
+        if isinstance(a, _dt.timedelta) or isinstance(b, _dt.timedelta):
+            from .symtime import SymDelta, _m
+            if isinstance(a, _dt.timedelta):
+                return SymDelta(SV(_m(a), INT)).__sym_binop__(self, _OPSYM[type(op)], b, False)
+            return SymDelta(SV(_m(b), INT)).__sym_binop__(self, _OPSYM[type(op)], a, True)
         if not (is_number(a) and is_number(b)):
             raise Unsupported(f"binop {_OPSYM[type(op)]} on {type(a).__name__}, {type(b).__name__}")
         return self.sym_arith(_OPSYM[type(op)], lift(a), lift(b), a, b)
@@ -1071,7 +1080,7 @@ class Interp:
             return container.__sym_contains__(self, x)
         if isinstance(container, SV):
             raise ProgExc(TypeError("argument of type number is not iterable"))
-        if isinstance(container, (list, tuple)) and (isinstance(x, SV) or any(isinstance(y, SV) for y in container)):
+        if isinstance(container, (list, tuple)) and (_symbolic(x) or any(_symbolic(y) for y in container)):
             terms = []
             for y in container:
                 r = self.compare(ast.Eq(), x, y)
@@ -1279,6 +1288,10 @@ class Interp:
 
 # --------------------------------------------------------------------------------------------- helpers
 _MISSING = object()
+
+
+def _symbolic(x):
+    return isinstance(x, SV) or hasattr(x, "__sym_compare__")
 
 
 class _NoMerge(Exception):
@@ -1636,7 +1649,7 @@ def _minmax(is_min):
             if "default" in kwargs:
                 return kwargs["default"]
             raise ProgExc(ValueError("min()/max() arg is an empty sequence"))
-        if not any(isinstance(x, SV) for x in items):
+        if not any(_symbolic(x) for x in items):
             try:
                 return (min if is_min else max)(items)
             except NativeLeak:
